@@ -120,6 +120,16 @@ func (f *file) funcDecl(name string) *ast.FuncDecl {
 			return fd
 		}
 	}
+	// not in this file: a clean-up may have moved it, unchanged, into another file of the same package
+	for _, cd := range f.funcsOfPkg()[fn] {
+		if declName(cd) == name {
+			fmt.Printf("ANCHOR-MOVED: %s: function %s found in another file of the package\n", f.path, name)
+			if expandHelpers {
+				f.expandDecl(cd)
+			}
+			return cd
+		}
+	}
 	anchorLost("%s: function %s not found", f.path, name)
 	return nil
 }
